@@ -289,6 +289,10 @@ func splitVolume(b r3.Box, dir int) r3.Box {
 
 // summarize updates node masses and centers of mass.
 func (b *bucket) summarize() (center r3.Vec, mass float64) {
+	if b.particle != nil {
+		// A leaf already holds the position and mass of its particle.
+		return b.center, b.mass
+	}
 	for _, d := range &b.nodes {
 		if d == nil {
 			continue
